@@ -35,7 +35,11 @@ func valOf(rv reflect.Value, lv int) *val.Val {
 		panic(fmt.Errorf("val: Of(nil %v)", rv))
 	}
 	rt := rv.Type()
-	for rv.Kind() == reflect.Interface || rv.Kind() == reflect.Pointer {
+	for n := 0; rv.Kind() == reflect.Interface || rv.Kind() == reflect.Pointer; n++ {
+		if n > maxLevel {
+			// 指向自身的指针 (var x interface{}; x = &x) 否则会无限循环
+			panic("max nested depth exceeded")
+		}
 		rv = rv.Elem()
 		rt = rv.Type()
 	}
